@@ -7,6 +7,7 @@
    (set_masks tests `cluster < end`), only the global range reaches a glyph with that cluster value. *)
 From Coq Require Import List NArith Bool.
 From RB Require Import Gen.FeatureConsts Model.Feature Proofs.FeatureP.
+From RB Require Base.Result Model.Buffer Proofs.BufferMaskP.
 Import ListNotations.
 Local Open Scope N_scope.
 
@@ -197,3 +198,34 @@ Example C14_value_example :
   alternate_apply [100; 101; 102] (N.shiftl 4 5) (field_mask 5 3) false 0 = None /\
   lookup_applies 2147483648 (field_mask 5 3) = false.
 Proof. vm_compute. repeat split; reflexivity. Qed.
+
+(* ---- a glyph keeps the feature values it was given, whatever happens to its cluster afterwards.  Over the buffer model
+   that the operation-sequence correspondence runs against hb_buffer_t (Model/Buffer.v): the bits of a mask outside the
+   three glyph-flag bits - where set_masks stores user-feature values - survive set_cluster, merge_clusters and
+   delete_glyph, glyph by glyph.  The backward-merging branch of delete_glyph is the one that hands another glyph's mask
+   to set_cluster (only its FLAG bits may arrive).  Partial: delete_glyph in output mode (where GSUB deletes) at levels
+   0 and 1; at level 2 merge_clusters turns into a flag call. *)
+Theorem C14_set_cluster_keeps_feature_bits : forall i c m, BufferMaskP.fbits (Buffer.set_cluster i c m) = BufferMaskP.fbits i.
+Proof. exact BufferMaskP.fbits_set_cluster. Qed.
+Print Assumptions C14_set_cluster_keeps_feature_bits.
+
+Theorem C14_merge_clusters_keeps_feature_bits : forall b s e b', Buffer.merge_clusters b s e = Result.Ok b' ->
+  map BufferMaskP.fbits (Buffer.pre b') = map BufferMaskP.fbits (Buffer.pre b) /\ map BufferMaskP.fbits (Buffer.rest b') = map BufferMaskP.fbits (Buffer.rest b)
+  \/ Buffer.out_mode b = false /\ map BufferMaskP.fbits (Buffer.pre b' ++ Buffer.rest b') = map BufferMaskP.fbits (Buffer.pre b ++ Buffer.rest b).
+Proof. exact BufferMaskP.merge_clusters_fbits. Qed.
+Print Assumptions C14_merge_clusters_keeps_feature_bits.
+
+Theorem C14_delete_glyph_keeps_feature_bits_partial : forall b b', Buffer.out_mode b = true -> Buffer.level b <> 2%N -> Buffer.delete_glyph b = Result.Ok b' ->
+  exists x t, Buffer.rest b = x :: t /\ map BufferMaskP.fbits (Buffer.pre b') = map BufferMaskP.fbits (Buffer.pre b) /\ map BufferMaskP.fbits (Buffer.rest b') = map BufferMaskP.fbits t.
+Proof. exact BufferMaskP.delete_glyph_fbits. Qed.
+Print Assumptions C14_delete_glyph_keeps_feature_bits_partial.
+
+(* the backward-merging branch on a concrete buffer: the survivor takes cluster 0 and the deleted glyph's flag bits (3)
+   and keeps its own feature bits (0x100), not the deleted glyph's (0x200) *)
+Example C14_delete_backward_example :
+  let b := Buffer.mkZ [Buffer.mkInfo 10 0x100 1 0 0] [Buffer.mkInfo 11 0x203 0 0 0] 1 true 0 0 true 16384 0 in
+  match Buffer.delete_glyph b with
+  | Result.Ok b' => map (fun i => (Buffer.cluster i, Buffer.mask i)) (Buffer.pre b') = [(0, 0x103)] /\ Buffer.rest b' = []
+  | Result.Error _ => False
+  end.
+Proof. exact BufferMaskP.delete_glyph_backward_example. Qed.
